@@ -47,6 +47,8 @@ pub enum BaseStream {
     },
     #[cfg(test)]
     Mock(Cursor<Vec<u8>>),
+    #[cfg(feature = "verif-hooks")]
+    Verif(crate::verif::TransportBox),
 }
 
 impl BaseStream {
@@ -58,7 +60,15 @@ impl BaseStream {
 
         debug!("trying to connect to {}:{}", host, port);
 
+        #[cfg(feature = "verif-hooks")]
+        let mut hooked = crate::verif::dial(connect_url.scheme(), &host.to_string(), port);
+
         let stream = match connect_url.scheme() {
+            #[cfg(feature = "verif-hooks")]
+            _ if hooked.is_some() => match hooked.take().unwrap() {
+                Ok(transport) => Ok(BaseStream::Verif(crate::verif::TransportBox(transport))),
+                Err(err) => Err(err.into()),
+            },
             "http" => BaseStream::connect_tcp(&host, port, info)
                 .map(|(stream, timeout)| BaseStream::Plain { stream, timeout }),
             "https" => BaseStream::connect_tls(&host, port, info),
@@ -141,17 +151,27 @@ impl BaseStream {
                 let socket = stream.as_raw_socket();
 
                 let (tx, rx) = mpsc::channel();
+                #[cfg(feature = "verif-hooks")]
+                let verif_ctx = crate::verif::ctx();
                 thread::spawn(move || {
+                    #[cfg(feature = "verif-hooks")]
+                    verif_ctx.point("wd.start");
                     let shutdown = match deadline.checked_duration_since(Instant::now()) {
                         Some(timeout) => rx.recv_timeout(timeout) == Err(mpsc::RecvTimeoutError::Timeout),
                         None => rx.try_recv() == Err(mpsc::TryRecvError::Empty),
                     };
 
+                    #[cfg(feature = "verif-hooks")]
+                    verif_ctx.point(if shutdown { "wd.timeout" } else { "wd.released" });
                     if shutdown {
                         drop(rx);
+                        #[cfg(feature = "verif-hooks")]
+                        verif_ctx.point("wd.dropped");
 
                         #[cfg(not(windows))]
                         let _ = stream.shutdown(Shutdown::Both);
+                        #[cfg(feature = "verif-hooks")]
+                        verif_ctx.point("wd.shutdown");
 
                         #[cfg(windows)]
                         extern "system" {
@@ -193,6 +213,8 @@ impl Read for BaseStream {
             BaseStream::Tunnel { stream } => stream.read(buf),
             #[cfg(test)]
             BaseStream::Mock(s) => s.read(buf),
+            #[cfg(feature = "verif-hooks")]
+            BaseStream::Verif(s) => s.0.read(buf),
         }
     }
 }
@@ -204,6 +226,8 @@ impl Write for BaseStream {
             BaseStream::Plain { stream, .. } => stream.write(buf),
             BaseStream::Tls { stream, .. } => stream.write(buf),
             BaseStream::Tunnel { stream } => stream.write(buf),
+            #[cfg(feature = "verif-hooks")]
+            BaseStream::Verif(s) => s.0.write(buf),
             #[cfg(test)]
             _ => Ok(0),
         }
@@ -215,6 +239,8 @@ impl Write for BaseStream {
             BaseStream::Plain { stream, .. } => stream.flush(),
             BaseStream::Tls { stream, .. } => stream.flush(),
             BaseStream::Tunnel { stream } => stream.flush(),
+            #[cfg(feature = "verif-hooks")]
+            BaseStream::Verif(s) => s.0.flush(),
             #[cfg(test)]
             _ => Ok(()),
         }
@@ -224,6 +250,8 @@ impl Write for BaseStream {
 fn read_timeout(stream: &mut impl Read, buf: &mut [u8], timeout: &Option<mpsc::Sender<()>>) -> io::Result<usize> {
     match stream.read(buf) {
         Ok(0) => {
+            #[cfg(feature = "verif-hooks")]
+            crate::verif::ctx().point("rd.zero");
             #[cfg(unix)]
             if let Some(timeout) = timeout {
                 // On Unix we get a 0 read when the connection is shutdown by the timeout thread.
